@@ -92,6 +92,8 @@ type c02Scn struct {
 	StopRev int   // 0: InputClosed.Signal() then close(input); 1: close(input) then Signal()
 	StopGap int   // number of further trace events between the two halves of the stop request
 	Sig     []int // trace lengths at which SIGUSR1 is sent to the process
+	Http    []int // flavour 3, family I: answer of the fake intake to the i-th POST: status + 1000 if a Location header is
+	// sent with it (0 / beyond the end: 202 Accepted).  Non-empty: the exchanges are recorded (c02_datadog.go)
 }
 
 func c02Ints(xs []int) string {
@@ -127,6 +129,9 @@ func (s *c02Scn) String() string {
 	}
 	if s.Idle > 0 {
 		big += fmt.Sprintf(" idle=%d", s.Idle)
+	}
+	if len(s.Http) > 0 {
+		big += " http=" + c02Ints(s.Http)
 	}
 	return fmt.Sprintf("n=%d cap=%d age=%d fl=%d bug=%d conn=%s send=%s ack=%s ping=%s push=%s stop=%d rev=%d gap=%d sig=%s",
 		s.N, s.Cap, s.MaxAge, s.Flavor, s.Bug, c02Ints(s.Conn), c02Ints(s.Send), c02Ints(s.Ack), c02Ints(s.Ping),
@@ -176,6 +181,8 @@ func c02ParseScn(txt string) (*c02Scn, error) {
 			s.StopGap = iv
 		case "sig":
 			s.Sig = c02ParseInts(kv[1])
+		case "http":
+			s.Http = c02ParseInts(kv[1])
 		default:
 			return nil, fmt.Errorf("unknown scenario field %q", kv[0])
 		}
@@ -279,6 +286,13 @@ type c02World struct {
 
 	nConn, nSend, nAck, nPing int
 	panicked                  string
+
+	// family I (flavour 3 with an http script): what the fake intake saw and answered, and the exchanges as paired
+	// with the SendChunk calls of the real connection
+	ddReq  []c02Exch
+	ddGets int
+	dd     []c02Exch
+	ddBad  bool
 }
 
 // log appends an event; w.mu must be held.
@@ -535,6 +549,9 @@ type c02Result struct {
 	Remaining []int64 // chunks still in the input channel after the client finished
 	Finished  bool
 	Panic     string
+	DD        []c02Exch // family I: one per SendChunk call of the real datadog connection
+	DDBad     bool      // the exchanges could not be paired with the calls (no verdict)
+	DDGets    int       // requests other than POST seen by the fake intake (a followed redirect)
 }
 
 // c02RunScenario runs the real client on the scenario.
@@ -630,7 +647,8 @@ loop:
 	}
 	w.mu.Lock()
 	w.done = true
-	res := &c02Result{Trace: append([]c02Ev(nil), w.trace...), Finished: finished, Panic: w.panicked}
+	res := &c02Result{Trace: append([]c02Ev(nil), w.trace...), Finished: finished, Panic: w.panicked,
+		DD: append([]c02Exch(nil), w.dd...), DDBad: w.ddBad, DDGets: w.ddGets}
 	stage := w.stopStage
 	w.mu.Unlock()
 	close(w.endCh)
